@@ -224,6 +224,9 @@ def run_exhaustive(seed, tier):
     return stats, per, broken, errors
 
 
+CERTS = []
+
+
 def run_modelcheck(prop, seed, tier):
     n = 8
     procs = []
@@ -241,6 +244,7 @@ def run_modelcheck(prop, seed, tier):
             viol += r['violations']
             broken += r['k2_broken']
             samples += r['samples']
+            CERTS.extend(r.get('certs', []))
         except Exception as e:  # noqa: BLE001
             errors.append('model-checking worker failed: %s %s' % (e, (err or '')[-300:] if 'err' in dir() else ''))
     return stats, viol, broken, samples, errors
@@ -340,7 +344,13 @@ def main():
         if prop in MC_PROPS:
             ms, mviol, mbroken, msamples, merr = run_modelcheck(prop, seed, tier)
             worker_errors += merr
-            agg['modelcheck'] = dict(stats=dict(ms), samples=msamples[:2])
+            agg['modelcheck'] = dict(stats=dict(ms), samples=msamples[:2],
+                                     fresh_certificates=dict(
+                                         note='programs generated in this run for which coqc checked, by vm_compute of certify (Explore/Safe.v) and the '
+                                              'general lemmas of Proofs/CertLemmas.v, the all-schedule theorem fresh_program_all_schedules '
+                                              '(harness/freshcert.py), with the orders recorded from the real chart, and along every transition of '
+                                              'whose state graph the real engine was driven and compared with the model',
+                                         checked=int(ms.get('fresh_certificates_checked', 0)), programs=CERTS[:24]))
             agg['violations'] += mviol
             agg['k2_broken'] += mbroken
             agg['stats']['k2_compared'] += ms.get('transitions', 0)
